@@ -88,22 +88,19 @@ def Ptr.copy (h : Heap) (unit : Nat) (o : Ptr) : Heap × Option Ptr := Ptr.make 
 /-- move constructor: (new, moved-from source) -/
 def Ptr.moveCtor (o : Ptr) : Ptr × Ptr := (⟨o.blk, o.units, o.alloc⟩, { o with blk := none, units := 0 })
 
-/-- copy assignment `p = o` (p ≠ o); second component false when the allocation threw -/
+/-- allocate a block of `units` from `newAlloc`, then free the old one (allocate first: it may throw) -/
+def Ptr.reallocate (p : Ptr) (h : Heap) (c : ACfg) (unit newAlloc units : Nat) : Heap × Ptr × Bool :=
+  match h.allocate newAlloc (units * unit) .data with
+  | (h1, none) => (h1, p, false)
+  | (h1, some s) => (p.dealloc h1 c unit, ⟨some s, units, newAlloc⟩, true)
+
+/-- copy assignment `p = o` (p ≠ o); last component false when the allocation threw -/
 def Ptr.copyAssign (p : Ptr) (h : Heap) (c : ACfg) (unit : Nat) (o : Ptr) : Heap × Ptr × Bool :=
   if c.pocca && !c.ae && !c.eq p.alloc o.alloc then
-    match h.allocate o.alloc (o.units * unit) .data with
-    | (h1, none) => (h1, p, false)
-    | (h1, some s) =>
-      let h2 := p.dealloc h1 c unit
-      (h2, ⟨some s, o.units, o.alloc⟩, true)
+    p.reallocate h c unit o.alloc o.units
   else
     let p1 := if c.pocca then { p with alloc := o.alloc } else p
-    if p1.units < o.units || p1.blk.isNone then
-      match h.allocate p1.alloc (o.units * unit) .data with
-      | (h1, none) => (h1, p1, false)
-      | (h1, some s) =>
-        let h2 := p1.dealloc h1 c unit
-        (h2, ⟨some s, o.units, p1.alloc⟩, true)
+    if p1.units < o.units || p1.blk.isNone then p1.reallocate h c unit p1.alloc o.units
     else (h, p1, true)
 
 /-- move assignment `p = std::move(o)` (p ≠ o): (heap, p, moved-from o) -/
